@@ -32,6 +32,7 @@ def worker_env(outdir, mode):
     env["PYTHONWARNINGS"] = "ignore"
     env["POLARS_MAX_THREADS"] = "2"
     env["OMP_NUM_THREADS"] = "2"
+    env["OMP_WAIT_POLICY"] = "PASSIVE"  # idle OpenMP workers sleep instead of spinning (16 cores, many workers)
     env.pop("NUMBA_BOUNDSCHECK", None)
     if mode == "bounds":
         env["NUMBA_BOUNDSCHECK"] = "1"
@@ -85,7 +86,7 @@ def last_open_case(outdir):
 
 
 def run_shards(prop, tier, seed, plan, workdir, corpus_file=None, max_workers=None, wall_limit=None):
-    max_workers = max_workers or int(os.environ.get("GBV_WORKERS", "12"))
+    max_workers = max_workers or int(os.environ.get("GBV_WORKERS", "15"))
     shards = []
     for i, spec in enumerate(plan):
         out = os.path.join(workdir, f"s{i:02d}_{spec['mode']}")
